@@ -67,21 +67,24 @@ AppendOrders(ts) ==
     ELSE LET part(r) == SelectSeq(ts, LAMBDA x : x[1] % 2 = r) IN {part(0) \o part(1), part(1) \o part(0)}
 
 \* a batch of deletes is flushed: tombstones appended (per flusher in sequence order), buffer page flushed
-AppendBatch(ks) ==
+\* s0 = the sequence of the first tombstone (sequences are shared with inserts)
+AppendBatchFrom(ks, s0) ==
     /\ open
-    /\ LET ts == [i \in 1 .. Len(ks) |-> <<ks[i], seq + i - 1>>] IN
+    /\ LET ts == [i \in 1 .. Len(ks) |-> <<ks[i], s0 + i - 1>>] IN
        \E ord \in AppendOrders(ts) :
          LET a == AppendAll(ring, slot, bufPage, buf, ord) IN
          /\ ring' = WritePage(a.ring, a.bufPage, a.buf)
          /\ slot' = a.slot /\ bufPage' = a.bufPage /\ buf' = a.buf
          /\ lastpos' = (a.slot - 1) % Cap
-    /\ seq' = seq + Len(ks)
+    /\ seq' = s0 + Len(ks)
     /\ deleted' = [k \in 1 .. NKeys |->
                      LET is == {i \in 1 .. Len(ks) : ks[i] = k} IN
                      IF is = {} THEN deleted[k]
-                     ELSE seq + (CHOOSE i \in is : \A j \in is : j <= i) - 1]
-    /\ hist' = hist \o [i \in 1 .. Len(ks) |-> seq + i - 1]
+                     ELSE s0 + (CHOOSE i \in is : \A j \in is : j <= i) - 1]
+    /\ hist' = hist \o [i \in 1 .. Len(ks) |-> s0 + i - 1]
     /\ UNCHANGED open
+
+AppendBatch(ks) == AppendBatchFrom(ks, seq)
 
 \* process exit (graceful or crash: every append is flushed before it is acknowledged)
 Close == open /\ open' = FALSE /\ UNCHANGED <<ring, slot, bufPage, buf, seq, deleted, hist, lastpos>>
